@@ -30,14 +30,18 @@ func (c18) Rule() string {
 
 var rigCache = map[int]*redis.VerifRig{}
 
-// cachedRig reuses one socket-less processor per host count (SCAN keeps no state in it).
-func cachedRig(n int) *redis.VerifRig {
+// cachedRig reuses one socket-less processor per small host count (SCAN keeps no state in it); a processor with hundreds of
+// hosts is built for the op and released afterwards (release: the func returned).
+func cachedRig(n int) (*redis.VerifRig, func()) {
 	if r, ok := rigCache[n]; ok {
-		return r
+		return r, func() {}
 	}
 	r := hx.NewRig(n, pbredis.ReadStrategy_MASTER)
-	rigCache[n] = r
-	return r
+	if n <= 16 {
+		rigCache[n] = r
+		return r, func() {}
+	}
+	return r, func() { hx.DropScopes(r.ScopeName()) }
 }
 
 func nodeIndex(addr string) int {
@@ -97,7 +101,8 @@ func (c18) Exec(op string) string {
 			}
 			args = append(args, b)
 		}
-		rig := cachedRig(n)
+		rig, release := cachedRig(n)
+		defer release()
 		kind, idx, body, resp, pan := scanOnce(rig, args, func(int, *redis.RespValue) *redis.RespValue { return reply })
 		switch {
 		case strings.HasPrefix(pan, "reply-mutated") && body != nil:
@@ -139,7 +144,8 @@ func (c18) Exec(op string) string {
 			}
 			nodes = append(nodes, es)
 		}
-		rig := cachedRig(len(nodes))
+		rig, release := cachedRig(len(nodes))
+		defer release()
 		cursor := []byte("0")
 		var cursors, keys []string
 		ok := false
